@@ -30,8 +30,12 @@ CLAIMS = {
                      "every (state, character class) cell and grammar-generated inputs; the golden-table interpreter is one oracle "
                      "that produces failing inputs; the second is an independent transcription of WHATWG 13.2.5 in Python "
                      "(lib/whatwg_tok.py, written from the standard, entity table from CPython) run on the same inputs "
-                     "(tokens compared without parse errors). The full refinement theorem against an independent WHATWG "
-                     "interpreter in Coq is not proved.",
+                     "(tokens compared without parse errors). Stage A of the refinement against a FORMAL specification: "
+                     "coq/TokIR/WhatwgSpec.v is the WHATWG tokenization algorithm as an executable Coq state machine (all 80 states, "
+                     "input preprocessing, named references by maximal munch over the WHATWG table, scripted tree-construction "
+                     "feedback), transcribed from the standard via lib/whatwg_tok.py and independent of html5ever and of the tables; "
+                     "C01_whatwg_cross_check evaluates it against the interpreter on the regenerated table on 33 nasty inputs "
+                     "inside Coq (a test by computation). The refinement THEOREM (for all inputs) is not proved yet.",
                 note=TOK_NOTE + " The golden table is an audited snapshot, not an independent transcription.",
                 tech="source-to-Coq translation + reflective Coq checks + golden-table differential + independent WHATWG tokenizer oracle"),
     "C03": dict(cat="proof", ref="DESIGN.md section 5 C03",
